@@ -318,6 +318,8 @@ def run(ctx, prog):
         n_m += 1
         ctx.inst('C06.R3', b.short.split('::{')[0], 'merge #%d: hot candidates validated' % sum(1 for x in ctx.instances if x.get('config') == ctx.config and x['rule'] == 'C06.R3' and x['key'].startswith('C06.R3 | %s |' % b.short.split('::{')[0])), ok, '')
     ctx.floor('C06.R3', 'merge call sites', n_m, 3, '')
+    # what "validated" means: the filter itself keeps a candidate only past the full canonical check of its own mirror entry (shared with C04.R1)
+    C04.hot_filter_validates(ctx, prog, 'C06.R3')
 
     # ------------------------------------------------------------------ R4
     ctx.rule('C06.R4', 'exhaustive hot scan: HotTier::knn_search_with_cancel leaves its scan loop before exhaustion only on an edge controlled by the '
